@@ -927,8 +927,12 @@ def gen_range_end_finds(rng, n):
             z = {"tr": [], "ty": [ty], "lp": [], "rule": {"k": "none"}}
         elif kind < 0.75:
             z = {"tr": [], "ty": [ty], "lp": [], "rule": {"k": "fixed", "t": dict(ty)}}
-        else:
+        elif kind < 0.85:
             z = {"tr": [[0, 0]], "ty": [ty], "lp": [], "rule": {"k": "fixed", "t": dict(ty)}}
+        else:
+            # the fixed rule's type is NOT one of the listed types (the listed one has another offset): the rule alone governs
+            other = {"off": rng.choice([0, -off if off != I32MIN + 1 else 0, 60]), "dst": 0, "des": B("LST")}
+            z = {"tr": [], "ty": [other], "lp": [], "rule": {"k": "fixed", "t": dict(ty)}}
         yield zone_event(z)
         for end in (MINT, MAXT):
             for _ in range(4):
@@ -1683,6 +1687,22 @@ def gen_tzstrings(rng, n):
             pass
         for via in vias:
             yield {"op": "tzstring", "a": {"s": list(s), "via": via}}
+
+
+def gen_day_notation_confusions():
+    """Rule days whose notation letter is doubled, mixed or misplaced (JMm.w.d, MJn, JJn, Mn, J, M, Jn.w.d, m.w.d ...) in either
+    position, with and without a time: none is a day of the grammar; and the three proper notations next to them."""
+    days = ["M3.2.0", "M11.1.0", "J60", "J365", "59", "0", "365"]
+    bad = []
+    for d in days:
+        for pre in ("J", "M", "JJ", "MM", "JM", "MJ", "+", "-", "0J", "0M"):
+            bad.append(pre + d)
+    bad += ["J", "M", "J60.2.0", "3.2.0", "M3.2", "M3", "M3.2.0.1", "J0", "J366", "366", "M0.1.0", "M13.1.0", "M3.0.0", "M3.6.0", "M3.2.7", "Jm3.2.0", "j60", "m3.2.0"]
+    for b in bad + days:
+        for tm in ("", "/2", "/0:30"):
+            for text in (f"EST5EDT,{b}{tm},M11.1.0", f"EST5EDT,M3.2.0,{b}{tm}", f"<+03>-3<+04>,{b}{tm},J300/1"):
+                for via in ("v2", "v3", "settings"):
+                    yield {"op": "tzstring", "a": {"s": list(text.encode()), "via": via}}
 
 
 # ---- corpus (C08, C03, C10) ----
